@@ -234,3 +234,43 @@ func sortedU32(m map[uint32]bool) []uint32 {
 	sort.Slice(out, func(i, j int) bool { return out[i] < out[j] })
 	return out
 }
+
+// applyOwn applies the effect of the client's own accepted request (a client is not sent a
+// broadcast for what it did itself; it knows from the answer).
+func (v *View) applyOwn(req any, got []*RecvMsg, rid uint32) {
+	switch q := req.(type) {
+	case *hagallpb.EntityAddRequest:
+		if r := findByRID(got, rid, 9); r != nil {
+			id := r.Msg.(*hagallpb.EntityAddResponse).EntityId
+			v.Entities[id] = &VEntity{Owner: v.PID, Flag: int32(q.Flag), Pose: poseOf(q.Pose)}
+		}
+	case *hagallpb.EntityDeleteRequest:
+		v.dropEntity(q.EntityId)
+	case *hagallpb.EntityUpdatePose:
+		if e, ok := v.Entities[q.EntityId]; ok {
+			e.Pose = poseOf(q.Pose)
+		}
+	case *hagallpb.EntityComponentAddRequest:
+		v.Components[CKey{q.EntityComponentTypeId, q.EntityId}] = string(q.Data)
+	case *hagallpb.EntityComponentDeleteRequest:
+		delete(v.Components, CKey{q.EntityComponentTypeId, q.EntityId})
+	case *hagallpb.EntityComponentUpdate:
+		v.Components[CKey{q.EntityComponentTypeId, q.EntityId}] = string(q.Data)
+	case *vikjapb.EntityActionRequest:
+		a := q.GetEntityAction()
+		if v.Actions[a.GetEntityId()] == nil {
+			v.Actions[a.GetEntityId()] = map[string]VAction{}
+		}
+		v.Actions[a.GetEntityId()][a.GetName()] = vaction(a)
+	case *odalpb.AssetInstanceAddRequest:
+		if r := findByRID(got, rid, 202); r != nil {
+			v.Assets[q.EntityId] = VAsset{ID: r.Msg.(*odalpb.AssetInstanceAddResponse).AssetInstanceId, Asset: q.AssetId, Owner: v.PID, Entity: q.EntityId}
+		}
+	case *hagallpb.EntityComponentListRequest:
+		for _, r := range got {
+			if lr, ok := r.Msg.(*hagallpb.EntityComponentListResponse); ok && r.ReqID == rid {
+				v.RefreshType(q.EntityComponentTypeId, lr.EntityComponents)
+			}
+		}
+	}
+}
